@@ -775,7 +775,7 @@ fn run_case(prop: &str, t: Template, i: u64, rng: &mut Rng, out: &mut Outcome, d
             };
             let clause_head = clause.split('|').next().unwrap_or("").to_string();
             let sig = if receiver && clause.starts_with("differs-from-uninterrupted-run") && ratchet_at.map(|r| k > r).unwrap_or(false) {
-                format!("{prop}|interrupted-event-lost|op={t:?}|ratchet-advance-persisted-before-crash")
+                format!("{prop}|interrupted-event-lost|op={t:?}|ratchet-advance-persisted-before-crash|phase={phase}")
             } else {
                 format!("{prop}|{clause_head}|op={t:?}|phase={phase}")
             };
